@@ -99,7 +99,10 @@ TraceNext ==
                                      /\ dmark' = Len(delivered) /\ l' = l + 1 /\ UNCHANGED vars
        [] Ev = "flush.begin.post" -> Obs(TRUE)
        [] Ev = "flush.bad.post"   -> FALSE                      \* a payload line that is not a well-formed histogram message
+       \* (A[1] = 1: two more whole flushes ran after every pusher had finished: by now every completed push has been handed
+       \*  to a flush, except the values lost to CF05a)
        [] Ev = "quiet"            -> Obs(Quiescent /\ dmark = Len(delivered)
+                                         /\ ((Len(A) >= 1 /\ A[1] = 1) => completed \subseteq (Range(delivered) \cup LateLost))
                                          /\ (IF LateLost = {} THEN TRUE ELSE Known("CF05a", LateLost)))
        [] Ev = "clr.next.post"    -> Obs(cur[Clearer] = A[1])
        [] Ev = "clr.done.post"    -> Obs(pc[Clearer] = "c_load")
